@@ -11,6 +11,7 @@ def run(tier):
     grid = int(os.environ.get('VERIF_GRID', 60 if tier == 'quick' else 1))
     fstride = 97 if tier == 'quick' else 7
     tzconf.check_database(chk, exe, 'extended', os.path.join(common.REPO, 'src/ace_time/zonedbx'), grid, fstride, 'zonedbx')
+    tzconf.check_configurations(chk, exe, 'extended', 'zonedbx')
     # algorithm level: ExtProc.tla (the init(year) algorithm) bound to the real processor's tables for every zone x year
     # 1999..2050, its invariants, and its step function judged by TzSem.tla
     extproc.check_shipped(chk)
